@@ -187,10 +187,17 @@ def decode(pairs):
 
 
 # ------------------------------------------------------------------ observed side
-def classify(log, n_rows_total):
+def classify(log, n_rows_total, all_columns=None, n_variants=None):
+    """all_columns / n_variants: the columns of the input table and its number of variants.  polars' unique(variant).collect()
+    in Experiment._read_variants keeps every column of the table but only one row per variant: that is the variants fetch
+    (a row-level fetch never holds an undeclared column such as `junk`)."""
     out = []
     for rec in log:
         cols = rec["columns"]
+        if (all_columns is not None and sorted(cols) == sorted(all_columns) and rec["rows"] == n_variants
+                and not any(c.startswith(("_count", "_mean__", "_var__", "_cov__")) for c in cols)):
+            out.append({"kind": "variants", "rows": rec["rows"]})
+            continue
         if any(c.startswith(("_count", "_mean__", "_var__", "_cov__")) for c in cols):
             out.append({"kind": "aggr", "rows": rec["rows"], "grouped": int("variant" in cols),
                         "has_count": int("_count" in cols), "n_mean": sum(c.startswith("_mean__") for c in cols),
